@@ -98,10 +98,12 @@ pub fn gen_args(r: &mut Rng, op: i64, max_n: usize) -> (Vec<f64>, String) {
         403 => { let (p, name) = small_profile(r);
                  // revolve profiles live at x > 0
                  let off = 6.0 + r.uniform(0.0, 20.0); let q: Vec<P> = p.iter().map(|c| (c.0 + off, c.1)).collect();
-                 let deg = *r.pick(&[1.0, 30.0, 89.0, 90.0, 91.0, 179.0, 180.0, 270.0, 359.0, 360.0, 360.0, 45.5]);
+                 // one revolve in four stops right next to a quarter, half or full turn (tolerances in place of the `== 360` test show there)
+                 let deg = if r.below(4) == 0 { let t = *r.pick(&[90.0, 180.0, 360.0, 360.0]); let d = *r.pick(&[1e-9, 1e-6, 1e-3, 4e-3, 0.05]); if t < 360.0 && r.coin() { t + d } else { t - d } }
+                           else { *r.pick(&[1.0, 30.0, 89.0, 90.0, 91.0, 179.0, 180.0, 270.0, 359.0, 360.0, 360.0, 45.5]) };
                  let mut v = vec![deg, (3 + r.below(30)) as f64, q.len() as f64]; v.extend(flat(&q)); (v, name.to_string()) }
         404 => { let (p, name) = small_profile(r); let closed = r.below(3) == 0; let pa = path(r, closed);
-                 let twist = if closed { *r.pick(&[0.0, 360.0, -720.0]) } else { *r.pick(&[0.0, 0.0, 37.0, 360.0, -720.0]) };
+                 let twist = if closed { *r.pick(&[0.0, 360.0, -720.0]) } else if r.below(4) == 0 { r.uniform(-400.0, 400.0) } else { *r.pick(&[0.0, 0.0, 37.0, 360.0, -720.0]) };
                  let mut v = vec![twist, if closed { 1.0 } else { 0.0 }, p.len() as f64, pa.len() as f64]; v.extend(flat(&p));
                  for q in pa.iter() { v.extend(q); } (v, name.to_string()) }
         405 => { let pitch = *r.pick(&[0.4, 0.5, 0.8, 1.0, 1.25, 1.5, 2.0, 3.0, 6.0]); let d_maj = pitch * r.uniform(4.0, 12.0);
